@@ -1,7 +1,8 @@
 (* C19 - skin and morph controllers decode the file faithfully.
    Statements only; proofs are in Proofs/Skin.v. *)
 From Coq Require Import List Bool Arith ZArith NArith Lia.
-From PC Require Import Base.Outcome Base.Mat Model.Skin Proofs.Skin.
+From PC Require Import Base.Outcome Base.Py Base.Mat Model.Skin Proofs.Skin.
+Close Scope Z_scope.
 Import ListNotations.
 
 (* Once the references of a <skin> resolve ([well_referenced]: enough sources, the geometry,
@@ -144,6 +145,45 @@ Proof.
   intros. split; [apply bound_skin_point|split; [apply bound_skin_nil|intro; apply bound_skin_cons]].
 Qed.
 Print Assumptions C19_bound_matrix.
+
+(* BoundMorph (Morph.bind under a path of node matrices): it carries the product of the node
+   matrices (no bind shape matrix is involved) and the morph itself - base geometry and the
+   (target, weight) pairs in the same order, reachable by position; under a further outer node m
+   the matrix is m . (matrix under the inner path).  (The code does not bind the base geometry or
+   the targets; that is stated here as it is.) *)
+Theorem C19_bound_morph : forall (path : list matZ) (m : N * list (N * Z)),
+  bm_matrix (bind_morph path m) = zmprod path /\
+  bm_base (bind_morph path m) = fst m /\
+  bm_pairs (bind_morph path m) = snd m /\
+  (forall i, i < length (snd m) -> bound_morph_get (bind_morph path m) (Z.of_nat i) = nth_error (snd m) i) /\
+  (forall p, bm_matrix (bind_morph (p :: path) m) = zmmul p (bm_matrix (bind_morph path m))) /\
+  (forall v, zmapply (bm_matrix (bind_morph path m)) v = zmapply (bound_skin_matrix path zmid) v).
+Proof.
+  intros path m. repeat split.
+  - intros i H. apply bound_morph_get_nth. exact H.
+  - intro v. unfold bind_morph, bound_skin_matrix. simpl. unfold zmmul, zmid.
+    rewrite (mmul_id_r _ _ _ _ _ _ _ Zth_mat). reflexivity.
+Qed.
+Print Assumptions C19_bound_morph.
+
+(* BoundSkin.getJoint / getWeight on an accepted skin: every non-negative joint index (-1 is the
+   bind shape, not a joint) and every weight index the skin exposes selects an entry of its source *)
+Theorem C19_accessors_total : forall d kj km kw kwj js ms ws wjs s,
+  well_referenced d kj km kw kwj js ms ws wjs -> load_skin d = Ok s ->
+  (forall x, In x (concat (sv_joint_index s)) -> (0 <= x)%Z -> exists a, get_joint wjs x = Some a) /\
+  (forall x, In x (concat (sv_weight_index s)) -> exists row, get_weight ws x = Some row).
+Proof.
+  intros d kj km kw kwj js ms ws wjs s W H.
+  pose proof (wr_wjs_names _ _ _ _ _ _ _ _ _ W) as Hn. pose proof (wr_ws_floats _ _ _ _ _ _ _ _ _ W) as Hf.
+  rewrite (load_skin_decode _ _ _ _ _ _ _ _ _ W) in H.
+  destruct (decode_ncomp _ _ _ _ _ _ H) as [_ Hc].
+  pose proof (decode_ok _ _ _ _ _ _ H) as K. cbv zeta in K.
+  destruct K as (_ & _ & _ & _ & _ & _ & _ & _ & _ & K9 & K10 & _).
+  split.
+  - intros x Hx H0. apply get_joint_total; [exact Hn|]. specialize (K9 _ Hx). lia.
+  - intros x Hx. apply get_weight_total; [exact Hf|exact Hc|]. specialize (K10 _ Hx). lia.
+Qed.
+Print Assumptions C19_accessors_total.
 
 (* a morph: base geometry, and the (target geometry, weight) pairs in order, all targets being
    loaded geometries; mismatched target / weight counts are rejected as DaeMalformedError *)
@@ -301,3 +341,18 @@ Proof.
     + repeat constructor; eexists; reflexivity.
   - vm_compute. discriminate.
 Qed.
+
+Example C19_bound_morph_nonvacuous :
+  let m := (20%N, [(21%N, 4%Z); (20%N, (-8)%Z)]) in
+  let p := zmat_of_list [2;0;0;1; 0;2;0;0; 0;0;2;0; 0;0;0;1]%Z in
+  mat_to_list (bm_matrix (bind_morph [p; p] m)) = [4;0;0;3; 0;4;0;0; 0;0;4;0; 0;0;0;1]%Z /\
+  bound_morph_get (bind_morph [p; p] m) 1%Z = Some (20%N, (-8)%Z) /\
+  bound_morph_get (bind_morph [p; p] m) (-1)%Z = Some (20%N, (-8)%Z) /\
+  bound_morph_get (bind_morph [p; p] m) 2%Z = None.
+Proof. vm_compute. repeat split. Qed.
+
+Example C19_accessors_nonvacuous :
+  get_joint (SrcNames false [10%N; 11%N]) 1%Z = Some 11%N /\
+  get_weight (SrcFloats 1 [8; 4; 2]%Z) 2%Z = Some [2%Z] /\
+  get_joint (SrcNames false [10%N; 11%N]) 2%Z = None.
+Proof. vm_compute. repeat split. Qed.
